@@ -60,6 +60,7 @@ class TranslatorBase(object):
         self.pins = {}           # storage name -> python const (requires-pinned scalars)
         self.notes = []
         self.dead = False
+        self.top_locals = {}
 
     # ------------------------------------------------------------------------------------------- infrastructure
     def fresh(self, base):
@@ -96,6 +97,8 @@ class TranslatorBase(object):
 
     def bind(self, name, value):
         self.frame.scopes[-1][name] = value
+        if len(self.frames) == 1:
+            self.top_locals[name] = value
 
     def assign(self, lv, e):
         e = E.const(e)
